@@ -564,7 +564,7 @@ Proof.
   intros next k. cbn [template_wf] in Hwf.
   destruct r as [|t2 r2].
   - (* the last statement: the assignment *)
-    destruct t; try discriminate; cbn [inst_aux]; eexists; reflexivity.
+    destruct t; try discriminate; cbn [inst_aux]; try destruct (p_node_opt d); eexists; reflexivity.
   - apply andb_true_iff in Hwf. destruct Hwf as [Hna Hwf]. specialize (IH Hwf).
     remember (t2 :: r2) as r eqn:Hr. clear Hr Hwf.
     destruct t; try discriminate; cbn [inst_aux].
